@@ -601,34 +601,8 @@ def _cse_text_match(anchor, other, i, j):
     return member(other, i, j).startswith(front)
 
 
-@known_predicate('C05-range-overlapping-cse-array')
-def _cse_overlap_known(case):
-    """In-memory workbook, a range whose top-left cell belongs to a CSE array and which is not
-    a piece of that array anchored at the array's top-left:
-      * TypeError / AttributeError (the range gets formula None or a number meets .startswith), or
-      * wrong values, when the range starts at the array's top-left and every other cell of it is a
-        member of an array whose formula text passes the prefix test (the first array's formula is
-        then stretched over the whole range)."""
-    if case.get('call') != 'cse-range' or case.get('wrapper') != 'in-memory':
-        return False
-    sheet, r1, c1, r2, c2 = case['rect']
-    arrays = [a[1:] for a in case['arrays'] if a[0] == sheet]
-    anchor = next((a for a in arrays if a[0] <= r1 <= a[2] and a[1] <= c1 <= a[3]), None)
-    if anchor is None:
-        return False                        # the range starts outside every array
-    at_top_left = (r1, c1) == (anchor[0], anchor[1])
-    if at_top_left and r2 <= anchor[2] and c2 <= anchor[3]:
-        return False                        # exactly the array, or a piece anchored at its top-left
-    if case.get('error') in ('TypeError', 'AttributeError'):
-        return True
-    if case.get('error') == 'value' and at_top_left:
-        for r in range(r1, r2 + 1):
-            for c in range(c1, c2 + 1):
-                a = next((a for a in arrays if a[0] <= r <= a[2] and a[1] <= c <= a[3]), None)
-                if a is None or not _cse_text_match(anchor, a, r - a[0] + 1, c - a[1] + 1):
-                    return False
-        return True
-    return False
+# C05-range-overlapping-cse-array: repaired in /repo 50c2e69 (no predicate; the cse-range stream reports it again
+# if it returns)
 
 
 def _gen_cse_overlap(rng):
